@@ -2,6 +2,7 @@ package chaincheck
 
 import (
 	"fmt"
+	"github.com/bytom/bytom/consensus"
 	"runtime"
 	"runtime/debug"
 	"sync"
@@ -31,6 +32,9 @@ type c37Case struct {
 	// then stops listening, as the wallet does when a rescan is requested and the websocket layer
 	// when its client goes away
 	Waiters []int `json:"waiters,omitempty"`
+	// Relays: 1-2 further peers relay transactions the node has refused before (a copy of a block's
+	// transaction with one more output than its inputs can pay), each several times
+	Relays int `json:"relays,omitempty"`
 }
 
 var c37Tree = ck.GenOpt{MinBlocks: 8, MaxBlocks: 26, Epochs: []uint64{2, 3}, Validators: []int{3, 4}, Txs: true, Sup: true, NodeKeyChoices: []int{-1, 0}}
@@ -55,6 +59,7 @@ func c37Gen(t *rapid.T) c37Case {
 		c.Yields = append(c.Yields, rapid.IntRange(0, 30).Draw(t, "yield"))
 	}
 	c.TxEvery = rapid.IntRange(1, 3).Draw(t, "txevery")
+	c.Relays = rapid.IntRange(0, 2).Draw(t, "relays")
 	if rapid.Bool().Draw(t, "waitersq") {
 		c.Waiters = rapid.SliceOfN(rapid.IntRange(1, 3), 1, 3).Draw(t, "waiters")
 	}
@@ -172,6 +177,39 @@ func c37Exec(c c37Case, x *pbt.Ctx) error {
 		}
 		return nil
 	})
+	// peers relaying transactions the node refuses (and has refused before)
+	if c.Relays > 0 && c.Relays <= 3 && len(txs) > 0 {
+		var stale []*types.Tx
+		for i, tx := range txs {
+			if i >= 6 {
+				break
+			}
+			d := tx.TxData
+			// one more output of far more BTM than the inputs hold: refused at any height
+			d.Outputs = append(append([]*types.TxOutput{}, d.Outputs...), types.NewOriginalTxOutput(*consensus.BTMAssetID, 1<<60, []byte{0x51}, nil))
+			stale = append(stale, types.NewTx(d))
+		}
+		for r := 0; r < c.Relays; r++ {
+			r := r
+			worker(func() error {
+				yield(c.Yields[(2+r)%5])
+				for round := 0; round < 6; round++ {
+					for k := range stale {
+						tx := stale[(k+r)%len(stale)]
+						raw, _ := tx.MarshalText()
+						cp := &types.Tx{}
+						if err := cp.UnmarshalText(raw); err != nil {
+							return fmt.Errorf("HARNESS: %v", err)
+						}
+						n.Chain.ValidateTx(cp)
+					}
+					yield(c.Yields[(3+r)%5] % 4)
+				}
+				return nil
+			})
+		}
+		x.Class("relays-of-refused-transactions-%d", c.Relays)
+	}
 	// readers
 	readers := func() error {
 		rix := 0
@@ -297,6 +335,6 @@ func firstLines(s string, n int) string {
 }
 
 func TestC37(t *testing.T) {
-	pbt.Run(t, "C37", "block trees of 8-26 blocks with transactions and block-carried links; four concurrent workers with generated start offsets and yields: block delivery, verification-message bursts for checkpoints that are known or not yet known (early messages, best-chain-changing messages), transaction submissions, read queries; in half of the cases 1-3 block waiters for heights 1-3 are taken beforehand and never listened to; built with -race; every worker must finish (90 s watchdog, goroutine dump must show the lock cycle), afterwards index, ledger and finality invariants hold; non-trivial = a full-majority burst and at least two checkpoints",
+	pbt.Run(t, "C37", "block trees of 8-26 blocks with transactions and block-carried links; four concurrent workers with generated start offsets and yields: block delivery, verification-message bursts for checkpoints that are known or not yet known (early messages, best-chain-changing messages), transaction submissions, 0-2 peers relaying refused transactions again and again, read queries; in half of the cases 1-3 block waiters for heights 1-3 are taken beforehand and never listened to; built with -race; every worker must finish (90 s watchdog, goroutine dump must show the lock cycle), afterwards index, ledger and finality invariants hold; non-trivial = a full-majority burst and at least two checkpoints",
 		pbt.Options{Journal: true, Checks: pbt.Per(60, 3000)}, c37Gen, c37Exec)
 }
